@@ -8,6 +8,7 @@
 #include "nmtools/array/index/pad.hpp"
 #include "nmtools/array/view/matmul.hpp"
 #include "nmtools/array/index/resize.hpp"
+#include "nmtools/array/index/roll.hpp"
 using namespace ob;
 template <class T, size_t C> using svc = nmtools::utl::static_vector<T,C>;
 
@@ -134,3 +135,21 @@ void ob_c15_shape_resize(const mk_t<K,size_t,R>& src_, const mk_t<K,size_t,R>& d
 }
 #define RS(K,R) template void ob_c15_shape_resize<K,R>(const mk_t<K,size_t,R>&, const mk_t<K,size_t,R>&);
 RS(k_std,1) RS(k_std,2) RS(k_std,3) RS(k_std,4) RS(k_utl,2) RS(k_utl,3)
+
+// roll: an axis outside [-dim, dim) is reported as Nothing, an axis inside it yields the unchanged shape (scalar run-time axis)
+template <class K, size_t R>
+void ob_c15_shape_roll(const mk_t<K,size_t,R>& shape_, int shift, int axis)
+{
+    const auto shape = shape_;
+    ASSUME(axis > -64); ASSUME(axis < 64);
+    if (axis >= -(int)R && axis < (int)R) {
+        auto r = ix::shape_roll(shape, shift, axis);
+        OBLIGE("C15.roll.shape.value_when_axis_in_range", static_cast<bool>(r), kid<K>, R);
+        if (r) for_<R>([&](auto J){ OBLIGE("C15.roll.shape.unchanged", (size_t)nm::at(*r,J.value) == (size_t)rd<J.value>(shape), kid<K>, R, J.value); });
+    } else {
+        auto r = ix::shape_roll(shape, shift, axis);
+        OBLIGE("C15.roll.shape.nothing_when_axis_out_of_range", !static_cast<bool>(r), kid<K>, R);
+    }
+}
+#define RL(K,R) template void ob_c15_shape_roll<K,R>(const mk_t<K,size_t,R>&, int, int);
+RL(k_std,1) RL(k_std,2) RL(k_std,3) RL(k_std,4) RL(k_utl,2) RL(k_utl,3)
